@@ -25,7 +25,7 @@ Two uses, both on every run:
 namespace Ndx.TGraph
 open Ndx
 
-inductive BOp | add | sub | mul | mod0 | equal | less | and | or | xor
+inductive BOp | add | sub | mul | mod0 | equal | less | and | or | xor | greater | lessEq | greaterEq
 deriving DecidableEq, Repr
 
 inductive RKind | sum | prod | min | max
@@ -156,6 +156,9 @@ def evalBOp : BOp → Int → Int → Int
   | .and, a, b => b2i (a != 0 && b != 0)
   | .or, a, b => b2i (a != 0 || b != 0)
   | .xor, a, b => b2i ((a != 0) != (b != 0))
+  | .greater, a, b => b2i (decide (a > b))
+  | .lessEq, a, b => b2i (decide (a ≤ b))
+  | .greaterEq, a, b => b2i (decide (a ≥ b))
 
 def bcast2 (f : Int → Int → Int) (a b : Tensor Int) : Tensor Int :=
   let out := (bshape a.shape b.shape).getD a.shape
@@ -265,7 +268,7 @@ def showNats (l : List Nat) : String := if l.isEmpty then "-" else ",".intercala
 
 def BOp.render : BOp → String
   | .add => "Add" | .sub => "Sub" | .mul => "Mul" | .mod0 => "Mod0" | .equal => "Equal" | .less => "Less"
-  | .and => "And" | .or => "Or" | .xor => "Xor"
+  | .and => "And" | .or => "Or" | .xor => "Xor" | .greater => "Greater" | .lessEq => "LessOrEqual" | .greaterEq => "GreaterOrEqual"
 
 def RKind.render : RKind → String
   | .sum => "ReduceSum" | .prod => "ReduceProd" | .min => "ReduceMin" | .max => "ReduceMax"
